@@ -50,12 +50,22 @@ P = {
          "Domain: renderings non-empty and not ending in a newline (as the property states).", "DESIGN.md 4/C14"),
 }
 
-NA = {
- "C15": "check under construction (generated tree! programs); not claimed yet",
- "C16": "check under construction (serde round trips); not claimed yet",
- "C17": "check under construction (feature-matrix digests); not claimed yet",
- "C18": "check under construction (reader threads, TSan, Miri, compile-time gate); not claimed yet",
-}
+P.update({
+ "C15": ("runtime monitor over generated programs: seeded generator writes tree! literals + expected trees, each literal is compiled and executed against a pre-populated arena; shape compared level by level, side-effect log for evaluation order/count, bystander equality; Miri (+ASan in thorough) on the expansion's unsafe",
+         "Exploration over programs: every ordered forest up to 5/6 nodes x both root forms x plain/decorated spelling, plus 500 / 20 000 random literals (depth<=7, width<=7, <=80 nodes, random '=> {}', trailing commas and expression spellings).",
+         "Only generated programs are observed; a compile error located in the generated file is a violation, any other build failure inconclusive.", "DESIGN.md 4/C15"),
+ "C16": ("runtime monitor: round trip through serde_json (visit_map path) and an in-harness positional format (visit_seq path) at random points of hostile histories; equality, per-id is_removed/links/payload agreement, then lock-step continuation on the copies",
+         "Exploration: ~10^5 round trips per run over states with removed, recycled and pending reusable slots; every later call is applied to original and copies and must return the same result and leave equal arenas.",
+         "serde, serde_json and the positional format are trusted.", "DESIGN.md 4/C16"),
+ "C17": ("offline checker over recorded observation logs: one seeded battery of histories is executed under 4 / 16 feature sets (library built no_std+alloc when std is off) and the per-history observation digests are compared; par_iter vs iter by address; tree! vs hand-built",
+         "Exploration over configurations x histories: every observable of the core API after every call (results incl. error text, ids, links, all traversals, pretty-printed text) is folded into a digest per history; any feature set whose digest differs is a violation.",
+         "The harness links std in every configuration; only the library is compiled without it.", "DESIGN.md 4/C17"),
+ "C18": ("compile-time gate observed by the type checker (Send/Sync/Freeze generic in T, -F unsafe_code) + runtime: 16 reader threads and par_iter on shared arenas compared with the single-thread digest, Miri data-race detector over several schedules, ThreadSanitizer in thorough",
+         "The for-all-T / for-all-schedules part is decided by the compiler; the runtime part observes hundreds of distinct interleavings (counted) and two independent race detectors.",
+         "Freeze is shallow; interior mutability behind a pointer is only caught if it changes observations or races.", "DESIGN.md 4/C18"),
+})
+
+NA = {}
 
 try:
     import manifest_extra
@@ -91,6 +101,12 @@ manifest = {
     "engines": [
         {"name": "E1-mon", "path": "harness/src/bin/mon.rs", "serves_properties": ["C01", "C02", "C03", "C04", "C05", "C06", "C07", "C08", "C09", "C10", "C11", "C12", "C13", "C14", "C16"],
          "kind_free_text": "monitor runner: reference model + invariant walkers + property monitors over W1/W2/W3 workloads, 16 worker threads, replay"},
+        {"name": "E2-battery", "path": "harness/src/special.rs (BatteryHook) + lib/checks_extra.py", "serves_properties": ["C17", "C13"],
+         "kind_free_text": "observation-log battery with per-history digests, compared offline across feature sets and build profiles"},
+        {"name": "E3-macrogen", "path": "harness/macrogen + lib/macrogen.py", "serves_properties": ["C15"],
+         "kind_free_text": "generator of tree! programs with expected trees; generated crate executed natively, under Miri and ASan"},
+        {"name": "E4-readers+E5-typecheck", "path": "harness/src/bin/readers.rs + harness/typecheck", "serves_properties": ["C18"],
+         "kind_free_text": "concurrent reader workload (native, Miri many-seeds, TSan) and compile-time auto-trait / unsafe_code gate"},
     ],
     "checks": checks,
     "not_applicable": [{"property_id": k, "reason": v} for k, v in sorted(NA.items()) if k not in P],
